@@ -837,6 +837,13 @@ impl<'tcx> Cx<'tcx> {
             ("local", J::Bool(local)),
             ("kind", J::s(if def.is_enum() { "enum" } else if def.is_union() { "union" } else { "struct" })),
         ];
+        if local {
+            // names of the type parameters, in the order of the `args` of an instantiated type
+            let gs: Vec<J> = tcx.generics_of(d).own_params.iter()
+                .filter(|p| matches!(p.kind, ty::GenericParamDefKind::Type { .. }))
+                .map(|p| J::s(p.name.to_string())).collect();
+            o.push(("generics", J::Arr(gs)));
+        }
         let mut vs = vec![];
         for (vi, v) in def.variants().iter_enumerated() {
             let mut vo: Vec<(&str, J)> = vec![("name", J::s(v.name.to_string())), ("idx", J::n(vi.as_usize()))];
